@@ -94,8 +94,10 @@ def run(prog, ctx):
     ex = prog.func(EX + "BalancedExtrapolationGrid.extrapolate_dicts_one_step")
     ctx.touch(ex)
     tme = Terms(ex.node)
+    # role of the result table: the local that the step returns
+    returned = {r.ast.value.id for r in R.return_paths(ex)[0] if isinstance(r.ast.value, ast.Name)}
     stores = [st for st in walk_local(ex.node) if isinstance(st, ast.Assign) and isinstance(st.targets[0], ast.Subscript)
-              and isinstance(st.targets[0].value, ast.Name) and st.targets[0].value.id == "new_dict"]
+              and isinstance(st.targets[0].value, ast.Name) and st.targets[0].value.id in returned]
     ctx.floor("C11.D2.step", len(stores), 2, "stores of the extrapolation step")
     left_p, top_p = ex.params[0], ex.params[1]
     top_coef = None
@@ -147,11 +149,12 @@ def run(prog, ctx):
                       "(with 0 for the missing finer entry): `%s`" % src(st))
     # the coefficient is -1 / (4**k - 1)
     okc = False
-    for b in tme.env.bindings.get("coefficient", []):
-        if b.kind == "assign":
+    # role of the coefficient: the local whose definition is a quotient with a power of 4 in it
+    for b in [b for bs in tme.env.bindings.values() for b in bs]:
+        if b.kind == "assign" and b.value is not None and any(isinstance(y, ast.Pow) for y in ast.walk(b.value)):
             t = tme.term(b.value)
             kk = ("n", ex.params[2])
-            okc = t == ("op", "Div", (("c", "-1"), ("op", "Sub", (("op", "Pow", (("c", "4"), kk)), ("c", "1")))))
+            okc = okc or t == ("op", "Div", (("c", "-1"), ("op", "Sub", (("op", "Pow", (("c", "4"), kk)), ("c", "1")))))
     ctx.check(okc, "C11.D2", R.key_of(ex, "romberg-coefficient"), ex.loc(), "a_k = -1 / (4**k - 1)",
               "the extrapolation coefficient is no longer -1 / (4 ** k - 1)")
 
@@ -162,7 +165,11 @@ def run(prog, ctx):
     c = cfg_of(cw)
     pts, lv = cw.params[1], cw.params[5]
     keyt = None
-    for b in Terms(cw.node, max_depth=0).env.bindings.get("key", []):
+    # role of the key: the subscript of the cache accesses
+    key_names = {n.slice.id for n in ast.walk(cw.node) if isinstance(n, ast.Subscript) and R.self_attr(n.value, "self") == "weight_cache"
+                 and isinstance(n.slice, ast.Name)}
+    KEY = sorted(key_names)[0] if len(key_names) == 1 else None
+    for b in Terms(cw.node, max_depth=0).env.bindings.get(KEY, []):
         if b.kind == "assign":
             keyt = tmc.term(b.value)
     covers = keyt is not None and any(x == ("n", pts) for x in subterms(keyt)) and any(x == ("n", lv) for x in subterms(keyt))
@@ -175,7 +182,7 @@ def run(prog, ctx):
     for n in ast.walk(cw.node):
         if isinstance(n, ast.Subscript) and R.self_attr(n.value, "self") == "weight_cache":
             (stores_ if isinstance(n.ctx, ast.Store) else lookups).append(n)
-    samekey = all(tm0.term(n.slice) == ("n", "key") for n in lookups + stores_) and bool(lookups) and bool(stores_)
+    samekey = KEY is not None and all(tm0.term(n.slice) == ("n", KEY) for n in lookups + stores_) and bool(lookups) and bool(stores_)
     val_ok = False
     for st in walk_local(cw.node):
         if isinstance(st, ast.Assign) and st.targets[0] in stores_:
@@ -312,9 +319,13 @@ def check_freshness(prog, ctx):
     ctx.touch(bw)
     tm = Terms(bw.node, max_depth=0)
     n = 0
+    # role of the base-weight table: a local created as an (default)dict in get_weights
+    fresh = {st.targets[0].id for st in walk_local(bw.node) if isinstance(st, ast.Assign) and len(st.targets) == 1 and isinstance(st.targets[0], ast.Name)
+             and ((isinstance(st.value, ast.Dict) and not st.value.keys) or (isinstance(st.value, ast.Call) and isinstance(st.value.func, ast.Name)
+                                                                           and st.value.func.id in ("dict", "defaultdict", "OrderedDict")))}
     for st in walk_local(bw.node):
         if isinstance(st, ast.Assign) and isinstance(st.targets[0], ast.Subscript) and isinstance(st.targets[0].value, ast.Name) \
-                and st.targets[0].value.id == "weight_dict":
+                and st.targets[0].value.id in fresh:
             loops = [l for l in R.enclosing_loops(st) if isinstance(l, ast.For) and isinstance(l.target, ast.Name)]
             if not loops:
                 continue
